@@ -42,6 +42,9 @@ def run(chk: Check):
                        "ev": G.tau2_events(rng, d, order, nkeys=3 if chk.quick else 8)})
     traces.append({"hdr": {"kind": "tau2", "d": 3, "order": 1, "nontrivial": True, "int_current": True},
                    "ev": G.tau2_events(rng, 3, 1, nkeys=2 if chk.quick else 6, int_current=True)})
+    # coefficients on extreme scales: the inverse-gamma full conditional has its mass near 1e7 / near 1e-9
+    traces.append({"hdr": {"kind": "tau2", "d": 3, "order": 1, "nontrivial": True, "beta_scale": "large"},
+                   "ev": G.tau2_events(rng, 3, 1, nkeys=2 if chk.quick else 6, beta_scale=4000.0, stale_change=False)})
     # a penalty matrix held as an integer array (D'D of an integer difference matrix)
     traces.append({"hdr": {"kind": "tau2", "d": 4, "order": 2, "nontrivial": True, "int_penalty": True},
                    "ev": G.tau2_events(rng, 4, 2, nkeys=2 if chk.quick else 6, int_penalty=True)})
